@@ -157,6 +157,26 @@ def check(ctx):
                 if r is not None:
                     lines.append('strm.save %d %s | %s' % (n, 'e1' if stop == 'srcfail' else '-', ' '.join(r['demands'])))
                     metas.append((case, r))
+        # cheap version of the long-stream test: start the member numbering just below 10**6 (from outside, through the
+        # module's name `enumerate`; if the implementation numbers its members differently this is simply one more stream)
+        import builtins
+        import generatorpipeline.streamfunctions as S
+        for start in (999995, 9999990):
+            had = 'enumerate' in vars(S)
+            S.enumerate = lambda g, start=start: builtins.enumerate(g, start)
+            try:
+                f = os.path.join(tmp, 'boundary_%d.zip' % start)
+                elems = list(range(14))
+                got = list(S.savestream(iter(elems), f, compresslevel=1))
+                back = list(S.loadstream(f))
+            finally:
+                if not had:
+                    del S.enumerate
+            ctx.case(('name-boundary', start), True, sample=dict(member_numbering_starts_at=start, n=14))
+            ctx.count('name_boundary_streams')
+            if got != elems or back != elems:
+                ctx.fail('archive-order-depends-on-names', 'a stream whose member numbers cross 10^6 (numbering started at %d) replays as %s' % (start, back),
+                         dict(member_numbering_starts_at=start, n=14))
         if not ctx.quick:
             # names beyond data/999999 no longer sort lexicographically: order must come from the archive, not from names
             from generatorpipeline.streamfunctions import savestream, loadstream
